@@ -35,6 +35,10 @@ def main():
     ran = []
     # 1. clean tree: demo passes
     d = R.scratch_copy()
+    # the target directory is shared between admissions: make cargo rebuild from this copy
+    for root, _, files in os.walk(os.path.join(d, "src")):
+        for f in files:
+            os.utime(os.path.join(root, f), None)
     try:
         shutil.copy(demo, os.path.join(d, "tests", "demo.rs"))
         rc, out = cargo(d, ["test", "--test", "demo", a.prefix], feats)
